@@ -299,7 +299,8 @@ struct ScopeBinding {
     // A binding lives for one pass of the checker or the evaluator over its `let`, and the bound expression
     // is looked at in the scope of that `let` only: type and value are computed once. Computing them again
     // for every use made the work of nested lets the product of the numbers of uses per level.
-    type_cache: std::sync::OnceLock<Result<Type, String>>,
+    // (with the number of levels the checker went down for it: a later use counts them without walking them)
+    type_cache: std::sync::OnceLock<(Result<Type, String>, usize)>,
     value_cache: std::sync::OnceLock<Result<Value, String>>,
 }
 
@@ -321,14 +322,15 @@ impl std::hash::Hash for ScopeBinding {
 
 impl Evaluatable for ScopeBinding {
     fn type_of(&self, _ctx: ScriptContextRef) -> Result<Type, Error> {
-        self.type_cache
-            .get_or_init(|| {
+        let (ty, below) = self.type_cache.get_or_init(|| {
+            Nesting::measure(|| {
                 self.value
                     .type_of(self.ctx.clone())
                     .map_err(|e| e.to_string())
             })
-            .clone()
-            .map_err(err_msg)
+        });
+        Nesting::account(*below)?;
+        ty.clone().map_err(err_msg)
     }
 
     fn value_of(&self, ctx: ScriptContextRef) -> Result<Value, Error> {
